@@ -104,11 +104,14 @@ def run_lazy_case(case):
 
 REDUCTIONS = ["sum", "nanmean", "count", "nanmax", "var", "argmax", "nanfirst", "first", "nanquantile", "prod"]
 LAYOUTS = [([0, 1, 0, 1, 2, 2, 0, 1], [2, 2, 2, 2]), ([0, 0, 1, 1, 2, 2, 2, 2], [2, 2, 4]), ([1, 0, 2, 0, 1, 2], [6]), ([0, 1, 0, 1, 0, 1], [1] * 6),
-           ([0, -1, 1, -1, 0, 1], [3, 3]), ([2, 0, 2, 0, 1, 1, 0, 2], [3, 3, 2])]
+           ([0, -1, 1, -1, 0, 1], [3, 3]), ([2, 0, 2, 0, 1, 1, 0, 2], [3, 3, 2]),
+           ([-1, -1, -1, -1], [2, 2])]     # every label missing: no group at all, still lazy
 
 
 def build(api, func, method, engine, reindex, by_dask, expected, layout):
     codes, chunks = LAYOUTS[layout]
+    if expected and max(codes) < 0:
+        return None
     if api == "scan":
         if func not in ("nancumsum", "ffill", "bfill") or method or engine or reindex is not None or expected:
             return None
